@@ -195,6 +195,11 @@ func c04RunPipeline(dir string, c *c04Case, res *c04Result) {
 	defer func() {
 		if rec := recover(); rec != nil {
 			c04Recovered(res, rec, stage)
+			// a panic inside a compiler pass: hand the IR the chains received to the check, which asks
+			// the Lean models whether THEY panic on it
+			if strings.Contains(res.Frame, "internal/ast/compiler.") {
+				res.Extra = c04LoadedIR(dir, c)
+			}
 		}
 	}()
 	for rel, data := range c.Files {
@@ -218,6 +223,24 @@ func c04RunPipeline(dir string, c *c04Case, res *c04Result) {
 	}
 	res.Outcome = "ok"
 	res.Raw = fmt.Sprintf("files=%d", fs.Len())
+}
+
+// c04LoadedIR = Pipeline.LoadSchemas (front-ends, consolidation, common passes) for the case's config
+func c04LoadedIR(dir string, c *c04Case) (vir string) {
+	defer func() {
+		if rec := recover(); rec != nil {
+			vir = ""
+		}
+	}()
+	pipeline, err := codegen.PipelineFromFile(filepath.Join(dir, c.Config), codegen.Parameters(nil))
+	if err != nil {
+		return ""
+	}
+	schemas, err := pipeline.LoadSchemas(context.Background())
+	if err != nil || schemas == nil {
+		return ""
+	}
+	return virSchemas(schemas)
 }
 
 func c04Clip(s string) string {
